@@ -94,19 +94,23 @@ theorem fkFinish_coh (bottom top : T4 α) (s : St α) (o : List (Sol α)) (hb : 
       exact coh_congr (coh_ikP s _ s.Tb) rfl rfl rfl rfl rfl rfl rfl
     · simp at h
 
-theorem fkCore_coh (p : Par α) (s : St α) (L : List α) (o : List (Sol α)) (protect : Bool)
-    {top : T4 α} {s' : St α} {o' : List (Sol α)} (h : fkCore p s L o protect = some (top, s', o')) : Coh s' := by
-  unfold fkCore at h
+theorem fkCoreAt_coh (p : Par α) (s : St α) (L : List α) (B : T4 α) (o : List (Sol α)) (protect : Bool)
+    {top : T4 α} {s' : St α} {o' : List (Sol α)} (h : fkCoreAt p s L B o protect = some (top, s', o')) : Coh s' := by
+  unfold fkCoreAt at h
   split at h
   · simp at h
   · rename_i bottom top0 s1 o1 hr
     have hg : s1.Tb = bottom ∧ s1.Tt = top0 ∧ Coh s1 := by
-      unfold fkSolver at hr
+      unfold fkSolverAt at hr
       split at hr
       · exact fkSolve_good _ _ _ _ _ _ hr
       · exact fkRaphson_good _ _ _ _ _ _ hr
     obtain ⟨hb, ht, hc⟩ := hg
     exact fkFinish_coh _ _ _ _ hb ht hc h
+
+theorem fkCore_coh (p : Par α) (s : St α) (L : List α) (o : List (Sol α)) (protect : Bool)
+    {top : T4 α} {s' : St α} {o' : List (Sol α)} (h : fkCore p s L o protect = some (top, s', o')) : Coh s' :=
+  fkCoreAt_coh p s L s.Tb o protect h
 
 /-! ### validation -/
 
@@ -268,13 +272,13 @@ theorem fkReverse_coh (p : Par α) (savedTop top : T4 α) (v : Bool) (s : St α)
     obtain ⟨_, _, rfl, _⟩ := h
     exact ik_coh p _ _ _ _ hi
 
-theorem fk_coh (p : Par α) (s : St α) (L : List α) (rev prot : Bool) (o : List (Sol α))
-    {top : T4 α} {v : Bool} {s' : St α} {o' : List (Sol α)} (h : fk p s L rev prot o = some (top, v, s', o')) : Coh s' := by
-  unfold fk at h
+theorem fkAt_coh (p : Par α) (s : St α) (L : List α) (B : T4 α) (rev prot : Bool) (o : List (Sol α))
+    {top : T4 α} {v : Bool} {s' : St α} {o' : List (Sol α)} (h : fkAt p s L B rev prot o = some (top, v, s', o')) : Coh s' := by
+  unfold fkAt at h
   split at h
   · simp at h
   · rename_i top1 s1 o1 hc
-    have h1 := fkCore_coh p s L o prot hc
+    have h1 := fkCoreAt_coh p s L _ o prot hc
     split at h
     · split at h
       · exact fkReverse_coh _ _ _ _ _ _ h
@@ -289,10 +293,14 @@ theorem fk_coh (p : Par α) (s : St α) (L : List α) (rev prot : Bool) (o : Lis
         · simp only [Option.some.injEq, Prod.mk.injEq] at h
           obtain ⟨_, _, rfl, _⟩ := h; exact h2
 
-/-- the verdict of an unprotected, non-reversed FK is sound -/
-theorem fk_sound (p : Par α) (s : St α) (L : List α) (o : List (Sol α))
-    {top : T4 α} {s' : St α} {o' : List (Sol α)} (h : fk p s L false false o = some (top, true, s', o')) : AllHold p s' := by
-  unfold fk at h
+theorem fk_coh (p : Par α) (s : St α) (L : List α) (rev prot : Bool) (o : List (Sol α))
+    {top : T4 α} {v : Bool} {s' : St α} {o' : List (Sol α)} (h : fk p s L rev prot o = some (top, v, s', o')) : Coh s' :=
+  fkAt_coh p s L s.Tb rev prot o h
+
+/-- the verdict of an unprotected, non-reversed FK is sound — over whatever bottom pose the caller gave -/
+theorem fkAt_sound (p : Par α) (s : St α) (L : List α) (B : T4 α) (o : List (Sol α))
+    {top : T4 α} {s' : St α} {o' : List (Sol α)} (h : fkAt p s L B false false o = some (top, true, s', o')) : AllHold p s' := by
+  unfold fkAt at h
   split at h
   · simp at h
   · rename_i top1 s1 o1 hc
@@ -303,6 +311,10 @@ theorem fk_sound (p : Par α) (s : St α) (L : List α) (o : List (Sol α))
       simp only [Option.some.injEq, Prod.mk.injEq] at h
       obtain ⟨_, rfl, rfl, _⟩ := h
       exact validate_sound p _ _ hv
+
+theorem fk_sound (p : Par α) (s : St α) (L : List α) (o : List (Sol α))
+    {top : T4 α} {s' : St α} {o' : List (Sol α)} (h : fk p s L false false o = some (top, true, s', o')) : AllHold p s' :=
+  fkAt_sound p s L s.Tb o h
 
 theorem move_coh (p : Par α) (s : St α) (T : T4 α) (o : List (Sol α))
     {s' : St α} {o' : List (Sol α)} (h : move p s T o = some (s', o')) : Coh s' := by
@@ -379,6 +391,11 @@ theorem op_coherent (p : Par α) (s : St α) (op : Op α) (hs : Coh s)
     obtain ⟨⟨t1, v1, s1, o1⟩, h1, h2⟩ := h
     simp only [Prod.mk.injEq] at h2; obtain ⟨_, rfl, _⟩ := h2
     exact fk_coh p _ _ _ _ _ h1
+  | fkAt L B rev prot o =>
+    simp only [step, Option.map_eq_some_iff] at h
+    obtain ⟨⟨t1, v1, s1, o1⟩, h1, h2⟩ := h
+    simp only [Prod.mk.injEq] at h2; obtain ⟨_, rfl, _⟩ := h2
+    exact fkAt_coh p _ _ _ _ _ _ h1
   | move T o =>
     simp only [step, Option.map_eq_some_iff] at h
     obtain ⟨⟨s1, o1⟩, h1, h2⟩ := h
@@ -418,7 +435,7 @@ theorem op_coherent (p : Par α) (s : St α) (op : Op α) (hs : Coh s)
 theorem op_verdict_sound (p : Par α) (s : St α) (op : Op α) {s' : St α} {n : Nat}
     (h : step p s op = some (some true, s', n))
     (hop : match op with | Op.ik _ _ => True | Op.validate _ => True | Op.validateDN => True
-                         | Op.fk _ false false _ => True | _ => False) : AllHold p s' := by
+                         | Op.fk _ false false _ => True | Op.fkAt _ _ false false _ => True | _ => False) : AllHold p s' := by
   cases op with
   | fk L rev prot o =>
     cases rev <;> cases prot <;> simp only at hop
@@ -426,6 +443,12 @@ theorem op_verdict_sound (p : Par α) (s : St α) (op : Op α) {s' : St α} {n :
     obtain ⟨⟨t1, v1, s1, o1⟩, h1, h2⟩ := h
     simp only [Prod.mk.injEq, Option.some.injEq] at h2; obtain ⟨rfl, rfl, _⟩ := h2
     exact fk_sound p _ _ _ h1
+  | fkAt L B rev prot o =>
+    cases rev <;> cases prot <;> simp only at hop
+    simp only [step, Option.map_eq_some_iff] at h
+    obtain ⟨⟨t1, v1, s1, o1⟩, h1, h2⟩ := h
+    simp only [Prod.mk.injEq, Option.some.injEq] at h2; obtain ⟨rfl, rfl, _⟩ := h2
+    exact fkAt_sound p _ _ _ _ h1
   | ik Tt o =>
     simp only [step, Option.map_eq_some_iff] at h
     obtain ⟨⟨v1, s1, o1⟩, h1, h2⟩ := h
